@@ -10,6 +10,5 @@ import driver
 driver.ensure_makefile()
 PY
 timeout 3000 make -C coq -j16 >/dev/null
-ln -sfn "${VERIF_REPO:-/repo}" harness/norad-src
 (cd harness && CARGO_TARGET_DIR=$PWD/target timeout 1800 cargo build --offline --release --quiet 2>/dev/null)
 echo setup ok
